@@ -109,6 +109,11 @@ class Vector(BaseGridder):
             raise ValueError(
                 "Weights must be a tuple of arrays. {} given.".format(type(weights))
             )
+        if len(data) != len(self.components):
+            raise ValueError(
+                "Number of data components ({}) must be equal to the number of "
+                "estimators ({}).".format(len(data), len(self.components))
+            )
         coordinates, data, weights = check_fit_input(coordinates, data, weights)
         self.region_ = get_region(coordinates[:2])
         for estimator, data_comp, weight_comp in zip(self.components, data, weights):
